@@ -169,6 +169,19 @@ func runC17(c *Ctx) {
 		c.Check("O", fnName(fn)+"/drops the transaction from the index", n == 1, fn.Pos(), n, "")
 		c.Guarded(fn, "tell the price heap (priced.Removed)", CallTo(`^\(\*mainchain/tx_pool\.txPricedList\)\.Removed$`, ""), G("only for out-of-bound removals (as upstream)", True(`^outofbound$`)))
 	}
+	if fn := c.Fn("mainchain/tx_pool", "TxPool", "removeTx"); fn != nil {
+		// removing an executable transaction lowers the sender's pending nonce to it, also when the list becomes empty
+		addr := `call:types\.Sender\(pool\.signer, call:\(\*mainchain/tx_pool\.txLookup\)\.Get\(pool\.all, hash\)\)#0`
+		low := func(in ssa.Instruction) bool {
+			cc := callCommon(in)
+			if cc == nil || calleeNameNoPath(cc) != "(*mainchain/tx_pool.txNoncer).setIfLower" {
+				return false
+			}
+			a := argPaths(cc)
+			return len(a) == 3 && a[0] == "pool.pendingNonces" && re(`^`+addr+`$`).MatchString(a[1]) && strings.HasPrefix(a[2], "call:(*types.Transaction).Nonce(call:(*mainchain/tx_pool.txLookup).Get(pool.all, hash)")
+		}
+		c.AfterGuard(fn, G("the transaction was removed from the pending list", True(`^call:\(\*mainchain/tx_pool\.txList\)\.Remove\(pool\.pending\[.*#0$`)), "lower the pending nonce to the removed transaction's nonce", low, "returning", AnyReturn())
+	}
 	if fn := c.Fn("mainchain/tx_pool", "TxPool", "promoteTx"); fn != nil {
 		c.Guarded(fn, "advance the pending nonce / heartbeat", Or(CallTo(`^\(\*mainchain/tx_pool\.txNoncer\)\.set$`, ""), StoreTo(`^&pool\.beats\[`)), G("list.Add inserted the transaction", True(`^call:\(\*mainchain/tx_pool\.txList\)\.Add\(.*\)#0$`)))
 		for _, in := range findInstrs(fn, CallTo(`^\(\*mainchain/tx_pool\.txNoncer\)\.set$`, "")) {
